@@ -5,7 +5,9 @@ CFG = {
                    "GeoModel/RelateSpec.lean", "GeoModel/Valid.lean", "GeoModel/F64.lean",
                    "GeoProofs/Lemmas/C07PSquare.lean", "GeoProofs/Lemmas/C07PSegSeg.lean", "GeoProofs/Lemmas/C07PMin.lean",
                    "GeoProofs/Lemmas/C07PBase.lean", "GeoProofs/Lemmas/C07PParts.lean",
-                   "GeoProofs/Lemmas/C07PRings.lean"],
+                   "GeoProofs/Lemmas/C07PRings.lean", "GeoModel/TRANPrelude.lean", "GeoModel/Gen/DistGen.lean",
+                   "GeoProofs/Lemmas/TRANDist.lean"],
+    "translator": True,
     "rule": "ordered pairs (A, B) cycling through all 100 ordered pairs of the 10 geometry types (Geometry enum on both sides and the "
             "concrete-type impls), on a shared 3..6 grid with half-grid points: B inside a hole of A (one or two holes, hole touching B or not), "
             "B nested in a polygon without holes, both on the same grid (crossing / touching / overlapping), B shifted by a small vector "
@@ -16,6 +18,8 @@ CFG = {
             "the domain (invalid by the exact Lean validity spec, or without any point) are SKIPped and counted. distinct by input text; "
             "Point x Point cases are tagged triv.",
     "trusted_base": [
+        "translator/rs2lean.py + rsexpr.py for the point-segment kernel (explicit choices: hypot = an abstract parameter constrained only by its square, "
+        "abs = rabs, .into() on a Coord = identity, numbers exact)",
         "[A] rstar: RTree::nearest_neighbor returns a segment of minimal distance_2 (the model takes the minimum over all segments)",
         "spec adequacy: the true distance of two disjoint geometries is attained between boundary/linework/point parts (brute force over all "
         "part pairs; segment x segment by the closed-form minimum of a convex quadratic on the unit square: interior critical point or an edge), "
@@ -55,7 +59,10 @@ MANIFEST = {
             "hypothesis-free statement is false for an invalid operand); the Point x LineString zero-iff is _partial (finding K4). Each run compares the real code with the model "
             "(zero <=> zero exactly, else 16 ulp relative on the square) and, independently, with a brute-force exact minimum over all part pairs "
             "combined with the DE-9IM specification for 'intersects (including containment)', and demands bit-identical results for exchanged "
-            "operands, a second representation and enum-vs-concrete impls.",
+            "operands, a second representation and enum-vs-concrete impls. Translator tie (TRAN, lineSegmentDistance_sq_eq_source_partial): "
+            "line_segment_distance / point_line_euclidean_distance / line_euclidean_length / Line::{delta,dx,dy} are regenerated from geo-types on "
+            "every run with f64::hypot as a parameter; whenever its square is x^2+y^2 at the three argument pairs the code evaluates, the square "
+            "of the regenerated result is psd2 (the kernel all psd2_* theorems are about).",
     "note": "Trusted: Lean kernel + audited axioms; the harness/generators (sampling); rstar nearest-neighbour [A]; spec adequacy. Open finding K4: "
             "Point x LineString returns exactly 0 for a point 1-2 ulps off a slanted segment (tolerance test in line_string_contains_point), "
             "off-grid inputs only; the model reproduces it with emulated f64 rounding.",
